@@ -99,6 +99,14 @@ PROPS = {
                 "Non-trivial = reference verdict is not VALID and the defect/truncation lies after the first complete block header.",
         "assumptions": COMMON_ASSUME,
     },
+    "C13": {
+        "level": "exploration",
+        "tests": [{"name": "TestC13", "quick": 5000, "thorough": 80000}],
+        "rule": "cases = (package flate/gzip/zlib; 1-3 earlier inputs, valid or malformed, each with a read plan: no reads / read k bytes then abandon / drain to EOF or error; then Reset onto the next input: valid, truncated, malformed, in particular streams whose back-references reach before their own start; zlib with right / wrong / missing / unneeded dictionary; bad checksum or cut trailer; read sizes; source chunking) drawn by rapid. "
+                "Oracle (model = fresh object): Reset's return value, header fields, every byte and the final error string (incl. CorruptInputError offset) equal those of a newly constructed Reader (NewReader / NewReaderDict) on an identical source. "
+                "Non-trivial = an earlier use left undelivered output, an error or a mid-stream state, and the next input is non-empty.",
+        "assumptions": COMMON_ASSUME,
+    },
 }
 
 # Texts for MANIFEST.json, per claimed property.
@@ -162,5 +170,11 @@ MANIFEST_TEXT = {
         "text": "Every generated malformed input is judged by the reference inflater (strict = compress/flate's rules, permissive = upper bound of what may be accepted); the Reader's bytes must be a prefix of the reference output and its terminal error must be of the right kind and sticky. Faults are placed after other blocks and followed by long tails so that table-reuse and look-ahead paths are exercised.",
         "note": "Error kind for inputs that are both truncated and defective is only constrained as the property allows (either error) unless >=400 bytes follow the defect.",
         "design_ref": "DESIGN.md section 4, C03",
+    },
+    "C13": {
+        "technique": "model-based property testing (rapid): used-then-Reset Reader vs freshly constructed Reader, full transcript equality, over flate/gzip/zlib with dictionaries",
+        "text": "Earlier uses are generated to leave every kind of residue (undelivered output, mid-block state, error state, a dictionary-capable or plain inflater inside zlib); the next input includes streams whose matches reach before their own start, which decode only if something of the earlier stream survived. The transcript must equal a new Reader's.",
+        "note": "The fresh Reader is the model; its own correctness is C02/C03/C07's business.",
+        "design_ref": "DESIGN.md section 4, C13",
     },
 }
